@@ -41,6 +41,43 @@ def cmp_node(n):
     return (show(l), op["variant"], r["variant"], show(r["fields"][0]["e"]) if r["fields"] else "")
 
 
+def mismatch_siblings(rep, F):
+    """A string predicate over a value that is neither a string nor a list (and has no str() cast) is answered in five sibling
+    places (the Search arm of solve_expression, the automaton and regex-set arms of match_all and match_of).  They must agree:
+    if one says missing and another false, `not` and all()/of() see different rule languages."""
+    rep.describe("T-MISMATCH", "the catch-all arms of the five value-kind matches of string predicates give the same answer")
+    got = []
+    for fname in ("solver::solve_expression", "solver::match_all", "solver::match_of"):
+        f = F.fn(fname)
+        if f is None:
+            rep.lost("T-MISMATCH", "T-MISMATCH/anchor/" + fname, fname)
+            continue
+        for n in walk(f.body):
+            if n.get("k") != "Match" or len(n["arms"]) < 3:
+                continue
+            strs = [a for a in n["arms"] if any(variant_of(pp) and variant_of(pp)[0] == "Value" and variant_of(pp)[1] == "String" for alt in or_pats(a["pat"]) for pp in q._walk_pat(alt))]
+            last = n["arms"][-1]
+            if not strs or not q._pat_wild(last["pat"]) or last.get("guard"):
+                continue
+            # only the matches of string predicates: some arm calls search()/slow_aho()/RegexSet::matches
+            if not any(call_is(x, "solver::search") or call_is(x, "solver::slow_aho") or call_is(x, "RegexSet::matches") for x in walk(n)):
+                continue
+            outs = set()
+            for x in walk(last["body"]):
+                if x.get("k") == "Return" and x.get("value") is not None and peel(x["value"]).get("k") == "Adt" and peel(x["value"])["adt"].endswith("SolverResult"):
+                    outs.add(peel(x["value"])["variant"])
+            for leaf, _ in q.result_leaves(last["body"]):
+                l = peel(leaf)
+                if l.get("k") == "Adt" and l["adt"].endswith("SolverResult"):
+                    outs.add(l["variant"])
+            got.append((fname.split("::")[-1], n.get("sp"), tuple(sorted(outs))))
+    answers = {o for _, _, o in got}
+    rep.check(len(got) >= 5, "T-MISMATCH", "T-MISMATCH/sites", "src/solver.rs", "five value-kind matches of string predicates found", str(len(got)))
+    for i, (fn, sp, o) in enumerate(got):
+        rep.check(len(answers) == 1 and len(o) == 1, "T-MISMATCH", "T-MISMATCH/%s#%d" % (fn, i), sp, "a value of the wrong kind is answered like in the sibling arms (%s)" % "/".join(sorted({x for a in answers for x in a})), "this arm: %s" % "/".join(o))
+    rep.floor("T-MISMATCH", 6)
+
+
 def sequence_is_or(pi):
     """parse_identifier, Sequence arm: Ok(BooleanGroup(Or, V)) where V = [parse_mapping(first)?] followed by one
     parse_mapping(entry)? per remaining entry, pushed in iteration order over the sequence's own iterator; any non-mapping => Err."""
@@ -376,6 +413,7 @@ def run(rep):
                 ok = isinstance(fb, dict) and (q.returns_sr(fb, "Missing") or row_missing)
                 rep.check(ok, "MISSING", key, n["sp"], "absent field => Missing (or a Missing row in a matrix)", b[:80])
     rep.check(nf >= 20, "MISSING", "MISSING/sites", "src/solver.rs", "at least twenty lookup sites", str(nf))
+    mismatch_siblings(rep, F)
     core.import_rules(rep, "c06", {"TRI-AND", "TRI-OR", "TRI-NOT", "TRI-ALL", "TRI-OF", "TRI-VERDICT"})
     core.import_rules(rep, "c07", {"T-PATTERN", "T-SEARCH", "FLAG", "PLAIN-CASE", "AHO-OVERLAP", "T-OFFSET", "LOCKSTEP", "LOWERCASE"})
     rep.floor("T-LOWER", 40)
